@@ -89,6 +89,10 @@ def holds (g : GT) (impl : String) : String :=
       if i.desc.isEmpty ∧ as.isEmpty then
         "FAILS described: a well-formed key in a supported container gets no description"
       else if ¬ g.desc.isEmpty ∧ i.desc ≠ g.desc then s!"FAILS container label: description differs from the container kind"
+      else if g.alg = "ecx" then
+        -- explicit domain parameters: an inferred curve name is shown iff the parameters are genuinely that curve's
+        (if (if g.param.isEmpty then (vals as "Curve (inferred)").isEmpty else vals as "Curve (inferred)" = [g.param]) then "holds"
+         else "FAILS curve: the curve reported for explicit parameters is not that of the key (inferred name wrong, missing or stale)")
       else if vals as "Algorithm" ≠ [strBytes (algDisplay g.alg)] then "FAILS algorithm: reported algorithm is not the key's"
       else if (g.alg = "rsa" ∨ g.alg = "dsa") ∧ vals as "Size" ≠ [natToDec (Keys.bitLen (numParam g)) ++ strBytes " bits"] then
         s!"FAILS size_is_bitlen: reported size is not the bit length of the modulus/prime ({Keys.bitLen (numParam g)} bits)"
